@@ -1216,6 +1216,11 @@ def solve_sylvester_direct(
         if index[0] < len(eigenvalues) and index[1] < len(eigenvalues):
             return explicit_part(Y, index)
 
+        if index[0] == index[1]:
+            # The implicit block is never selectively diagonalized, so its diagonal
+            # entry is only requested by code that discards the result (``offdiag``).
+            return zero
+
         if index[0] == len(eigenvalues):
             if greens_functions_left is None:
                 raise NotImplementedError(
